@@ -119,7 +119,17 @@ func cmdGen(args []string) int {
 	defer w.Flush()
 	for i := *start; i < *start+*n; i++ {
 		r := NewRng(*seed, uint64(i), d.Name)
-		ops := d.Gen(r, *tier, i, kv)
+		var ops []string
+		func() {
+			// generators call the real code for oracle values and directed inputs: a panic there is reported as the
+			// single op of the case (the executor turns it into a line no model agrees with) instead of ending the run
+			defer func() {
+				if p := recover(); p != nil {
+					ops = []string{"gen-panic " + Hx(strings.ReplaceAll(fmt.Sprint(p), "\n", " "))}
+				}
+			}()
+			ops = d.Gen(r, *tier, i, kv)
+		}()
 		fmt.Fprintf(w, "case %d %s\n", i, d.Name)
 		for _, o := range ops {
 			w.WriteString(o)
@@ -140,6 +150,10 @@ func execCase(d *Domain, ops []string, mon *Mon) (out []string) {
 			}
 		}
 	}()
+	if len(ops) == 1 && strings.HasPrefix(ops[0], "gen-panic ") {
+		mon.Hit("C10", "panic", map[string]interface{}{"what": "generator of domain " + d.Name + " (it calls the real code)", "panic": UnHx(strings.TrimPrefix(ops[0], "gen-panic "))})
+		return []string{"panic:in-generator " + UnHx(strings.TrimPrefix(ops[0], "gen-panic "))}
+	}
 	out = d.Exec(ops, mon)
 	return out
 }
